@@ -25,3 +25,22 @@ CHECKS["C20"] = dict(
     stages=[dict(pkg="./pkg/kubernetes", run="TestVerifC20", shards=16),
             dict(pkg="./pkg/resmgr/cache", run="TestVerifC20Cache", shards=4)],
 )
+
+_LIBMEM = dict(
+    level="model_checking",
+    assumptions=["allocator driven through its public API only", "request creation stamps are strictly increasing (asserted, execution retried otherwise)",
+                 "node sets limited to 2-4 nodes, 5-6 request shapes per scenario, at most two outstanding offers"],
+)
+CHECKS["C06"] = dict(_LIBMEM,
+    rule="explicit-state BFS over Allocate/GetOffer/Commit/Realloc/Release/Reset on a real libmem Allocator per node-set scenario; "
+         "twin executions (trace without uncommitted offers / commit replaced by direct allocation) for the differential clauses; "
+         "non-trivial = distinct states with at least two live allocations",
+    bound=dict(quick="16 scenarios, all sequences to depth 4", thorough="22 scenarios, all sequences to depth 5"),
+    stages=[dict(pkg="./pkg/resmgr/lib/memory", run="TestVerifC06", shards=16)],
+)
+CHECKS["C07"] = dict(_LIBMEM,
+    rule="same exploration frame as C06; after every successful Allocate/Realloc/Commit: capacity of every node subset, strict types, "
+         "normal memory, superset-only moves, immovable reservations, exact update set; non-trivial = states with at least two live allocations",
+    bound=dict(quick="16 scenarios, all sequences to depth 4", thorough="22 scenarios, all sequences to depth 5"),
+    stages=[dict(pkg="./pkg/resmgr/lib/memory", run="TestVerifC07", shards=16)],
+)
